@@ -4271,6 +4271,11 @@ class TLSConnection(TLSRecordLayer):
             # check if we have good key share
             share = clientHello.getExtension(ExtensionType.key_share)
             if share:
+                if share.client_shares is None:
+                    for result in self._sendError(
+                            AlertDescription.decode_error,
+                            "Malformed key_share extension"):
+                        yield result
                 share_ids = [i.group for i in share.client_shares]
                 acceptable_ids = [getattr(GroupName, i) for i in
                                   chain(settings.keyShares, settings.eccCurves,
